@@ -622,6 +622,14 @@ func (x *Exec) debugRef(st *State, d *ssa.DebugRef) {
 		return
 	}
 	fr.vars[obj.Name()] = v
+	if pt, ok := obj.Type().(*types.Pointer); ok {
+		if nt, ok := pt.Elem().(*types.Named); ok {
+			if v.GT == nil {
+				v.GT = obj.Type()
+			}
+			fr.vars[obj.Name()+"_"+nt.Obj().Name()] = v
+		}
+	}
 }
 
 func (x *Exec) runDefers(st *State, ds []Val, k func(*State)) {
